@@ -918,7 +918,7 @@ def rule_output(repo: Repo, rep: Report) -> int:
         p1 = [p for p in f1.params if p != "self"]
         ok0 = any(match(r.value, f"self.{meths[1]}(_X)") is not None and isinstance(match(r.value, f"self.{meths[1]}(_X)")["_X"], ast.Name) for r in r0)
         ok1 = len(r1) == 1 and isinstance(r1[0].value, ast.Name) and p1 and r1[0].value.id == p1[0]
-        rep.check(bool(ok0 and ok1), "OUTPUT", f1, f"{cname}: forward -> {meths[1]} -> return {unparse(r1[0].value) if r1 else '?'}", "the identity pair returns its input unchanged", "the identity scheme alters its input")
+        rep.shape(bool(ok0 and ok1), len(r1) == 1 and isinstance(r1[0].value, (ast.BinOp, ast.Call, ast.UnaryOp)), "OUTPUT", f1, f"{cname}: forward -> {meths[1]} -> return {unparse(r1[0].value) if r1 else '?'}", "the identity pair returns its input unchanged", "the identity scheme alters its input")
         n += 1
     return n
 
